@@ -296,7 +296,7 @@ pub fn run(args: &[String]) {
             let mut rng = Rng::new(a.seed);
             let mut r = gen_requests(&mut rng, a.n, &mut out);
             r.extend(gen_bin_requests(&mut rng, &mut out));
-            r.extend(sym::gen_sym_requests(&mut rng, &mut out));
+            r.extend(sym::gen_sym_requests(&mut rng, a.n, &mut out));
             r
         }
     };
